@@ -164,6 +164,11 @@ def other_writers(repo_src_dir, host_file, host_span):
     return hits
 
 
+import findings  # noqa: E402
+for _fn, _fp, _fb in findings.C34_PROJECTS:
+    BOUNDED.append({"name": _fn, "kind": "project-corpus", "props": ["C34"], "input": [_fp], "n_inputs": 1, "bound": _fb, "expect": {}})
+
+
 def build(tier):
     u = UnitFile("exports")
     u.raw(common.HEADER)
